@@ -38,6 +38,7 @@ From Crusta Require Import Spec.AF Sat.Cnf Sat.Prog Model.Store Model.Encoders M
 From Crusta Require Import Proofs.EncSpec Proofs.SolverBasics Proofs.SolverThms.
 From Crusta Require Import Proofs.TopBase Proofs.TopMax Proofs.SolverTop.
 From Crusta Require Proofs.GroundedProofs Proofs.TopGaps.
+From Crusta Require Proofs.Clauses.
 
 Theorem C01_stable_component_partial : forall oracle thr, 1 <= thr -> valid_oracle oracle ->
   forall c n, compact_af (c_af c) n ->
@@ -79,8 +80,55 @@ Theorem C01_good_view_iccma : forall L (leqb : L -> L -> bool),
   compact_af F (length labels) /\ GroundedProofs.af_of L f = F /\ view_good (view_of_fw f) F.
 Proof. exact TopGaps.iccma_store_good. Qed.
 
+(* ---- the remaining sentences of the property text, one by one (Proofs/Clauses.v) ---- *)
+
+(* "... and otherwise an extension is always returned": for every semantics but ST a completed
+   single-extension run returns a set (an extension), never 'no extension' *)
+Theorem C01_extension_always_returned : forall oracle thr g F,
+  valid_oracle oracle -> 1 <= thr -> view_good g F ->
+  forall s e al fuel cert st0, supported s QSE -> enc_ok s e -> s <> ST ->
+  match run_query oracle thr fuel s QSE cert e g al st0 with
+  | Done (OExt (Some L)) _ => ext s F L
+  | Done _ _ => False
+  | Panic _ => False
+  | _ => True
+  end.
+Proof. exact Clauses.se_always_returned. Qed.
+
+(* "'No extension' is reported only when the framework has none (which can only happen for ST)":
+   the stable solver answers 'no extension' EXACTLY when F has no stable extension *)
+Theorem C01_no_extension_iff_none : forall oracle thr g F,
+  valid_oracle oracle -> 1 <= thr -> view_good g F ->
+  forall e al fuel cert st0 r t,
+  run_query oracle thr fuel ST QSE cert e g al st0 = Done (OExt r) t ->
+  (r = None <-> forall S, ~ st F S).
+Proof. exact Clauses.se_none_iff_no_stable. Qed.
+
+(* "for GR and ID the unique extension is returned": a completed run returns an extension L, and
+   EVERY extension of F under the semantics has exactly the members of L *)
+Theorem C01_unique_extension_returned : forall oracle thr g F,
+  valid_oracle oracle -> 1 <= thr -> view_good g F ->
+  forall s e al fuel cert st0 o t, s = GR \/ s = ID -> enc_ok s e ->
+  run_query oracle thr fuel s QSE cert e g al st0 = Done o t ->
+  exists L, o = OExt (Some L) /\ ext s F L /\ NoDup L /\ incl L (args F) /\
+            forall S, ext s F S -> forall a, In a S <-> In a L.
+Proof. exact Clauses.se_unique_returned. Qed.
+
+(* "each of the seven semantics": CO-SE has no solver of its own (supported excludes it): the
+   library answers it with the grounded solver, whose answer is a complete extension *)
+Theorem C01_complete_via_grounded : forall oracle thr g F,
+  valid_oracle oracle -> 1 <= thr -> view_good g F ->
+  forall e al fuel cert st0 o t,
+  run_query oracle thr fuel GR QSE cert e g al st0 = Done o t ->
+  exists L, o = OExt (Some L) /\ co F L /\ NoDup L /\ incl L (args F).
+Proof. exact Clauses.se_grounded_is_complete. Qed.
+
 Print Assumptions C01_stable_component_partial.
 Print Assumptions C01_single_extension.
 Print Assumptions C01_good_view_compact.
 Print Assumptions C01_good_view_store.
 Print Assumptions C01_good_view_iccma.
+Print Assumptions C01_extension_always_returned.
+Print Assumptions C01_no_extension_iff_none.
+Print Assumptions C01_unique_extension_returned.
+Print Assumptions C01_complete_via_grounded.
